@@ -4,7 +4,7 @@
    decided by the fits oracle on every result of the implementation and by correspondence. *)
 From Coq Require Import ZArith Bool.
 From Apd Require Import Generated.Consts Model.Base Model.NumDigits Model.Decimal Model.Context Spec.SpecZ
-  Proofs.Core Proofs.SetExponent Proofs.RoundSpec Proofs.OpsProofs Proofs.OpsProjections.
+  Proofs.Core Proofs.SetExponent Proofs.RoundSpec Proofs.OpsProofs Proofs.QuoProofs Proofs.SeRoundProofs Proofs.OpsProjections.
 Open Scope Z_scope.
 
 Theorem C07_round est : est_in_range est -> forall c (x : dec), ctx_ok c -> finite_nn x -> exact_in_limits c (exact_of_dec x) ->
@@ -27,10 +27,12 @@ Theorem C07_add_sub est : est_in_range est -> forall c (x y : dec) (sub : bool),
 Proof. exact (c07_add_sub est). Qed.
 Print Assumptions C07_add_sub.
 
-Theorem C07_mul_normal_range_partial est : est_in_range est -> forall c (x y : dec), ctx_ok c -> finite_nn x -> finite_nn y -> in_lim (exp x) -> in_lim (exp y) -> exact_in_limits c (exact_mul x y) -> (xnum (exact_mul x y) = 0 \/ emin c <= xexp (exact_mul x y) + ndigits (xnum (exact_mul x y)) - 1 <= emax c) -> emin c <= xexp (exact_mul x y) <= emax c ->
+(* Mul: for EVERY pair of finite operands - the exact product in, above or below the context's exponent
+   range (below Emin setExponent rounds once to Etiny and the round that follows finds nothing left to do) *)
+Theorem C07_mul est : est_in_range est -> forall c (x y : dec), mul_hyps c x y ->
   exists d f, ctx_mul est c x y = Ok (finish c d f) /\ c07_post c d.
-Proof. exact (c07_mul_normal_range_partial est). Qed.
-Print Assumptions C07_mul_normal_range_partial.
+Proof. exact (c07_mul est). Qed.
+Print Assumptions C07_mul.
 
 (* Quo: for EVERY pair of finite operands with a non-zero divisor - any digit counts, any exponents, ties,
    all-nines carries, quotients in, above and below the normal range (where Quo keeps the remainder as a
